@@ -819,7 +819,9 @@ def uni_texts(max_size=10):
 
 def texts(max_size=10):
     return st.one_of(doc_texts(max_size), doc_texts(max_size), uni_texts(max_size),
-                     st.sampled_from(["", "Chapter ", "A-", "\u00fe\u00ff", "\u00ef\u00bb\u00bfx", "(", ")", "\\"]))
+                     st.sampled_from(["", "Chapter ", "A-", "\u00fe\u00ff", "\u00ef\u00bb\u00bfx", "(", ")", "\\",
+                                      # PDFDocEncoded text that starts with the bytes FF FE: not a byte-order mark in PDF
+                                      "\u00ff\u00fe", "\u00ff\u00fex", "\u00ff\u00feA\u0000", "\u00ff\u00fe1.", "\u00ff\u00fe\u00ff\u00fe"]))
 
 
 @st.composite
